@@ -161,6 +161,12 @@ def constructed(rng):
     for x, y in G.threshold_pairs(rng):
         if y[0] != 0:
             add(G.fD(*x), G.fD(*y))
+    # Decimals at the ends of an integer type's range against that type's -1 / 1 / 2 / ends (T::MIN % -1 in native width)
+    for dt, it in C.native_width_cases(rng):
+        if it.split(":")[1] != "0":
+            out.append("%s * %s %s" % (rng.choice(("rem", "crem")), dt, it))
+        if not dt.startswith("D0:"):
+            out.append("%s * %s %s" % (rng.choice(("rem", "crem")), it, dt))
     # integer dividends that cannot be up-scaled, huge divisors (step overflow with an int on the left)
     for _ in range(150):
         q = rng.randrange(1, 19)
